@@ -27,7 +27,7 @@ CFG = {
                  "contract check on the implementation's output",
     "design_ref": "DESIGN.md §3.2, §4 C03, §5 #2 #24 #25 #26",
     "n_quick": 1300, "n_thorough": 12000,
-    "rule": "4 of 10 histories start from random well-formed meshes, 3 from structured meshes (unreferenced vertices none/front/middle/back/several x degenerate primitives none/some/all, well-separated integer coordinates of both signs), 1 from a generator triangle list with integer positions reduced by SetIndices to a subset of its primitives, 2 from vertices clustered in the same and adjacent rounding cells (widths 1, 10, 100; centres, just inside and on the cell boundaries) welded at the matching decimal place; structured sources mostly get the index-remapping operations; random well-formed meshes (6 topologies; 0-10 vertices; identity, permuted, repeated, sparse and empty index "
+    "rule": "2 of 24 cases are needle/sliver RemoveNullFaces3D cases (aspect 1e3-1e9, scales 2^-40..2^20, thresholds decided exactly), 3 of 24 start from a surface with a definite neighbourhood structure (open fan, strip, grid, non-manifold edge, repeated-index, bow-tie, tetrahedron, line strip/loop/list) followed by Laplacian / Laplacian-along-axis / normals; float-valued operations and centre run at power-of-two scales 2^-40..2^20 two times in three (reference from the integer mesh, relative 1e-9); of the remaining histories 4 of 10 start from random well-formed meshes, 3 from structured meshes (unreferenced vertices none/front/middle/back/several x degenerate primitives none/some/all, well-separated integer coordinates of both signs), 1 from a generator triangle list with integer positions reduced by SetIndices to a subset of its primitives, 2 from vertices clustered in the same and adjacent rounding cells (widths 1, 10, 100; centres, just inside and on the cell boundaries) welded at the matching decimal place; structured sources mostly get the index-remapping operations; random well-formed meshes (6 topologies; 0-10 vertices; identity, permuted, repeated, sparse and empty index "
             "lists; 0-4 attributes of arity 1-4 incl. equal names in two arities and keys with empty arrays; duplicated "
             "vertex values; material ranges incl. empty and repeated ones), one of 27 operations per step (function, "
             "Transformer-struct and Mesh-method variants; ~1/10 with a wrong topology or missing attribute), histories of "
